@@ -28,12 +28,39 @@ def run(ctx):
     beh = ctx.tlc("PointsCacheMC", "PointsCache_beh.cfg", timeout=600, name="behaviour export")
     ctx.require_model_ok(beh, "behaviour export")
     bs = beh.behaviours
-    # keep maximal-length behaviours (every shorter one is a prefix of one of them) and sample
+    # Stratified sample: every *shape* (sequence of action names, with Get/Inval marked by whether
+    # they hit the same key / a second inside the last requested range) is represented, so rare
+    # shapes such as Get, Inval, Tick, Store, Get are never sampled away.
     maxlen = max(len(b) for b in bs)
     full = [b for b in bs if len(b) == maxlen]
     rnd = random.Random(ctx.seed)
     rnd.shuffle(full)
-    take = full[: (20000 if th else 3000)]
+
+    def shape(b):
+        out, last = [], None
+        for st in b:
+            a = st["a"]
+            if a == "Get":
+                same = last is not None and (st["k"], st["f"], st["t"]) == last
+                last = (st["k"], st["f"], st["t"])
+                out.append("G=" if same else "G")
+            elif a == "Inval":
+                inr = last is not None and any(last[1] <= x < last[2] for x in st["secs"])
+                out.append("I+" if inr else "I")
+            elif a == "Tick":
+                out.append("T%d" % st["d"])
+            else:
+                out.append("S")
+        return " ".join(out)
+
+    per = 12 if th else 3
+    buckets = {}
+    for b in full:
+        buckets.setdefault(shape(b), []).append(b)
+    take = []
+    for sh in sorted(buckets):
+        take += buckets[sh][:per]
+    ctx.ev.set("behaviour_shapes", len(buckets))
     res, out, rc = ctx.go_test("internal/api", "TestVerifC24", inp=take,
                                env={"VERIF_NRANDOM": 20000 if th else 2000, "VERIF_NOW0": 1080172797,
                                     "VERIF_MAXSIZE": 6, "VERIF_NROWS": 1}, timeout=1200)
